@@ -19,6 +19,12 @@ use crate::choice::{fnv64, hex, unhex};
 
 pub const VERIF_ROOT: &str = "/verif";
 
+/// where evidence and replay files are written: `VERIF_OUT` (for ad-hoc deep runs that must not touch the registered
+/// evidence) or /verif
+pub fn out_root() -> PathBuf {
+    std::env::var("VERIF_OUT").map(PathBuf::from).unwrap_or_else(|_| PathBuf::from(VERIF_ROOT))
+}
+
 #[derive(Clone, Copy, Debug, PartialEq, Eq)]
 pub enum Tier {
     Quick,
@@ -341,7 +347,7 @@ where
 // replay files and evidence
 
 pub fn write_replay(property: &str, subcheck: &str, choices: &[u8], sig: &str, msg: &str, rendered: Json) -> PathBuf {
-    let dir = Path::new(VERIF_ROOT).join("corpus").join(property);
+    let dir = out_root().join("corpus").join(property);
     let _ = std::fs::create_dir_all(&dir);
     let h = fnv64(&[choices, subcheck.as_bytes()].concat());
     let path = dir.join(format!("fail-{h:016x}.json"));
@@ -419,7 +425,7 @@ pub fn env_scale() -> f64 {
 
 impl Evidence {
     pub fn write(&self) {
-        let dir = Path::new(VERIF_ROOT).join("evidence");
+        let dir = out_root().join("evidence");
         let _ = std::fs::create_dir_all(&dir);
         let total = self.stats.evaluations.max(1);
         let mut coverage = serde_json::Map::new();
